@@ -14,7 +14,7 @@ import ast
 
 from ..absint import Event
 from ..actions import ActionAnalysis, describe_mut, guard_signature, raise_key, strip, trail_text
-from ..model import Program
+from ..model import AnalysisError, Program
 from ..report import Report
 
 
@@ -86,7 +86,7 @@ def typestate(R: Report, rule: str, f, engine, results, subject: str) -> None:
                     ax = e.name.split(":")[0]
                     R.ok(rule, f, e.where(), f"branch `{strip(e.args['test'])[:80]}` infeasible", detail=e.name[:200], via=f"axiom:{ax}")
     R.count("raise_exits_before_mutation", n_raise_clean)
-    loop_induction(R, rule, f, results)
+    loop_induction(R, rule, f, results, engine)
 
 
 def canon_item(term: str) -> str:
@@ -96,46 +96,87 @@ def canon_item(term: str) -> str:
     return re.sub(r"(\$?\b\w+)\[\d+\](?=\[)", r"\1[i]", term)
 
 
-def loop_induction(R: Report, rule: str, f, results) -> None:
-    """Inductive step for loops over a caller-supplied list, so that the verdict does not depend on how often the
-    loop is unrolled: if one iteration of the body can change the tracks, and the body's FIRST look-up of the current
-    item's id happens inside the body (nothing validated the items before the loop), then in the next iteration that
-    look-up runs after a sub-edit was applied.  Facts of iteration k say nothing about item k+1, so no guard of the
-    earlier iteration can discharge it."""
+def loop_induction(R: Report, rule: str, f, results, engine=None) -> None:
+    """Inductive step for loops over a caller-supplied collection, so that the verdict does not depend on how often the
+    loop is unrolled: if one iteration of the body can change state, and the body's FIRST look-up of the current item's
+    id - or a refusal (raise) decided by a test on the current item - happens inside the body (nothing validated the
+    items before the loop), then in the next iteration that look-up / refusal comes after an applied change.  Facts of
+    iteration k say nothing about item k+1, so no guard of the earlier iteration can discharge it."""
     import re
 
-    loops = [lp for lp in f.node.body if isinstance(lp, ast.For) and any(isinstance(x, ast.Name) and x.id in f.params for x in ast.walk(lp.iter))]
-    for lp in loops:
-        lo, hi = lp.body[0].lineno, lp.end_lineno
+    holders = [f] + ([m for m in f.cls.methods.values() if m is not f and m.name != "__init__"] if f.cls is not None else [])
+    if not any(isinstance(lp, ast.For) for g in holders for lp in ast.walk(g.node)):
+        return
+    item_rx = re.compile(r"\[0\]")
+    all_seqs = [seq for pr in results for seq in pr.sequences(lambda e: e.kind in ("mut", "query"))]
+    try:
+        all_seqs += [seq for pr in results if pr.kind == "raise" and not pr.data.dirty for seq in pr.sequences(
+            lambda e: e.kind in ("mut", "raise") or (e.kind == "cond" and item_rx.search(str(e.args.get("term", ""))) is not None))]
+    except AnalysisError:  # too many alternatives: the raise part of the inductive step is skipped, the unrolled analysis stands
+        R.notes.append(f"loop induction over refusals skipped for {f.short}: too many event alternatives")
+    for g in holders:
+        loops = [lp for lp in ast.walk(g.node) if isinstance(lp, ast.For)]
+        for lp in loops:
+            lo, hi = lp.body[0].lineno, max(getattr(s_, "end_lineno", lp.end_lineno) for s_ in lp.body)
 
-        def top_line(e):
-            s0 = getattr(e, "_site0", None)
-            return s0[0] if s0 else getattr(e.node, "lineno", 0)
+            def line_in_g(e):
+                if getattr(e, "origin", None) is g:
+                    return getattr(e.node, "lineno", 0)
+                if g is f:
+                    s0 = getattr(e, "_site0", None)
+                    return s0[0] if s0 else 0
+                return 0
 
-        body_mut = None
-        item_q = {}
-        for pr in results:
-            for seq in pr.sequences(lambda e: e.kind in ("mut", "query")):
-                for e in seq:
-                    if not (lo <= top_line(e) <= hi):
-                        continue
-                    if e.kind == "mut" and body_mut is None:
-                        body_mut = e
-                    if e.kind == "query" and not e.args.get("known") and not e.dirty and re.search(r"\$\w+\[0\]\[", str(e.args.get("node", ""))):
-                        item_q.setdefault((e.name, e.args["node"], e.ctx), e)
-        if body_mut is None:
-            continue
-        # the first unvalidated look-up per item term
-        first = {}
-        for (name, node, ctx), e in item_q.items():
-            k = node
-            if k not in first or (top_line(e), getattr(e.node, "lineno", 0)) < (top_line(first[k]), getattr(first[k].node, "lineno", 0)):
-                first[k] = e
-        for node, e in first.items():
-            c = f"lookup {e.name}({canon_item(strip(node))[:60]}) in {e.xctx[-1] if e.xctx else 'constructor body'}"
-            R.fail(rule, f, e.where(), c + " on an id not known to be a node, after mutation",
-                   detail=f"graph lookup raises for an unknown id (modelled implicit raiser); reached in iteration k+1 of the loop at line {lp.lineno} "
-                          f"after iteration k applied {body_mut.brief()[:80]} (inductive step over the caller-supplied list)")
+            body_mut = None
+            item_q = {}
+            item_raises = {}
+            for _once in (0,):
+                for seq in all_seqs:
+                    last_item_cond = None
+                    in_body = False
+                    for e in seq:
+                        ln = line_in_g(e)
+                        inside = lo <= ln <= hi
+                        if ln:
+                            in_body = inside  # events of g itself say where we are; events of inlined callees keep the position
+                        if e.kind == "mut" and e.name != "notify" and body_mut is None and (inside or in_body):
+                            body_mut = e
+                        if not inside:
+                            continue
+                        if e.kind == "cond" and re.search(r"\[0\]", str(e.args.get("term", ""))):
+                            last_item_cond = e
+                        if e.kind == "query" and not e.args.get("known") and not e.dirty and re.search(r"\$\w+\[0\]\[", str(e.args.get("node", ""))):
+                            item_q.setdefault((e.name, e.args["node"], e.ctx), e)
+                        if e.kind == "raise" and not e.dirty and last_item_cond is not None:
+                            item_raises.setdefault((raise_key(e), getattr(e.node, "lineno", 0)), (e, last_item_cond))
+            if body_mut is None and engine is not None and (item_q or item_raises):
+                # the body changes state through a call whose events carry no position in g: ask the call graph
+                env = engine.P.local_env(g)
+                for c_ in [x for st_ in lp.body for x in ast.walk(st_) if isinstance(x, ast.Call)]:
+                    tgt = engine.P.resolve_call(c_, env, g, count=False)
+                    if tgt and tgt[0] == "func" and engine.flags(tgt[1][0])[1]:
+                        body_mut = Event("mut", f"call:{tgt[1][0].short}", {}, c_, 0, (), False, None, g)
+                        break
+                    if tgt and tgt[0] == "class" and tgt[1].qname in engine.action_base:
+                        body_mut = Event("mut", f"construct:{tgt[1].name}", {}, c_, 0, (), False, None, g)
+                        break
+            if body_mut is None:
+                continue
+            first = {}
+            for (name, node, ctx), e in item_q.items():
+                if node not in first or (line_in_g(e), getattr(e.node, "lineno", 0)) < (line_in_g(first[node]), getattr(first[node].node, "lineno", 0)):
+                    first[node] = e
+            for node, e in first.items():
+                c = f"lookup {e.name}({canon_item(strip(node))[:60]}) in {e.xctx[-1] if e.xctx else 'constructor body'}"
+                R.fail(rule, f, e.where(), c + " on an id not known to be a node, after mutation",
+                       detail=f"graph lookup raises for an unknown id (modelled implicit raiser); reached in iteration k+1 of the loop at line {lp.lineno} "
+                              f"after iteration k applied {body_mut.brief()[:80]} (inductive step over the caller-supplied list)")
+            for (rk, _ln), (e, cnd) in item_raises.items():
+                sig = guard_signature(str(cnd.args.get("term", "")) + " " + cnd.name).split("+")[0]
+                construct = rk + f" [guard on {sig}] after an earlier iteration's {body_mut.name}"
+                R.fail(rule, f, e.where(), construct,
+                       detail=f"the refusal is decided by a test on the current item (`{strip(cnd.name)[:70]}`) inside the loop at line {lp.lineno} of {g.short}; iteration k may "
+                              f"already have applied {body_mut.brief()[:80]}: a request whose later item is refused leaves the earlier items' changes in place")
 
 
 def order_rule(R: Report, f, results) -> None:
